@@ -9,8 +9,13 @@
       delivery, a proposal recorded executed or in flight is never selected, every other delivered one is
     * history corollaries: the same for every delivery of every history (destination's executed set growing; BTC
       status machine with outcomes recorded through `storeProposalsStatus`)
+    * lookup_faithful / submit_is_signed / never_submitted: the lookup asks about the proposal's own (origin domain,
+      nonce); what is submitted for a session is what was signed in it, hence never an executed proposal
   Assumed (inputs of the model): the destination's answers; the store's fault stream.
-  Partial: nothing about the signing / submission after a session was started (see Model/C03.lean header).
+  Partial: the TSS signing between "session started" and "signature arrives" is not modelled; that `Execute` hands the
+  hashed batch to `watchExecution` is a regenerated source fact (Oblig/C03.lean), that `watchExecution` submits exactly
+  its batch is checked on the real code (op `submit`). BTC submission: only the outcome recording (C17).
+  The as-found Substrate behaviour is kept as `subAsFound` with the witness theorems `subAsFound_violates`.
 -/
 import SygmaModel.Model.C03
 namespace Sygma.C03
@@ -338,6 +343,49 @@ theorem classes_perm (res : Nat → Nat) (ns : List Nat) : (classes res ns).flat
 theorem classes_nonempty (res : Nat → Nat) (ns : List Nat) : ∀ s ∈ classes res ns, s ≠ [] :=
   (foldl_addTo res ns [] (by simp)).2
 
+/-- every class holds proposals of one resource -/
+def Homog (res : Nat → Nat) (cs : List (List Nat)) : Prop := ∀ c ∈ cs, ∀ n ∈ c, res n = res (c.headD 0)
+
+theorem addTo_homog (res : Nat → Nat) (n : Nat) (cs : List (List Nat)) (h : Homog res cs) :
+    Homog res (addTo res n cs) := by
+  induction cs with
+  | nil =>
+    intro c hc k hk
+    simp [addTo] at hc; subst hc; simp at hk; subst hk; rfl
+  | cons c r ih =>
+    unfold addTo
+    split
+    · next heq =>
+      intro c' hc' k hk
+      rcases List.mem_cons.1 hc' with rfl | h'
+      · cases c with
+        | nil => simp at hk; subst hk; rfl
+        | cons a t =>
+          have hc := h (a :: t) (List.mem_cons_self ..)
+          simp only [List.cons_append, List.headD_cons] at hc ⊢
+          rcases List.mem_cons.1 hk with rfl | hk'
+          · rfl
+          · rcases List.mem_append.1 hk' with h1 | h1
+            · exact hc k (List.mem_cons_of_mem _ h1)
+            · simp at h1; subst h1; simpa using (beq_iff_eq.1 heq).symm
+      · exact h c' (List.mem_cons_of_mem _ h') k hk
+    · intro c' hc' k hk
+      rcases List.mem_cons.1 hc' with rfl | h'
+      · exact h c' (List.mem_cons_self ..) k hk
+      · exact ih (fun x hx => h x (List.mem_cons_of_mem _ hx)) c' h' k hk
+
+theorem classes_homog (res : Nat → Nat) (ns : List Nat) : Homog res (classes res ns) := by
+  unfold classes
+  suffices ∀ acc, Homog res acc → Homog res (ns.foldl (fun acc n => addTo res n acc) acc) from
+    this [] (by intro c hc; cases hc)
+  induction ns with
+  | nil => intro acc h; exact h
+  | cons n r ih => intro acc h; exact ih _ (addTo_homog res n acc h)
+
+theorem group_homog (res : Nat → Nat) (ns : List Nat) : Homog res (group res ns) := by
+  intro c hc
+  exact classes_homog res ns c ((sortSessions_perm _).mem_iff.1 hc)
+
 theorem group_perm (res : Nat → Nat) (ns : List Nat) : (group res ns).flatten.Perm ns :=
   (List.Perm.flatten (sortSessions_perm _)).trans (classes_perm res ns)
 
@@ -394,6 +442,20 @@ theorem btc_P03 (res : Nat → Nat) (s : Store) (d : List Nat) :
       cases hx : executable s.m d with
       | nil => simp
       | cons a l => exact ⟨group_perm res (a :: l), group_nonempty res (a :: l)⟩
+
+/-- BTC: every session holds proposals of a single resource (one transaction per resource) -/
+theorem btc_sessions_one_resource (res : Nat → Nat) (s : Store) (d : List Nat) :
+    ∀ c ∈ (btc res s d).1.sessions, ∀ n ∈ c, res n = res (c.headD 0) := by
+  unfold btc
+  by_cases hd : d = []
+  · simp [hd]
+  · simp only [hd, if_false]
+    rcases forExec s d with ⟨o, s'⟩
+    rcases o with _ | ns
+    · simp
+    · cases ns with
+      | nil => simp
+      | cons a l => exact group_homog res (a :: l)
 
 /-- the ordered form implies the general one -/
 theorem P03ord_imp (e : Bool) (w : List Nat) (ss : List (List Nat)) (h : P03ord e w ss) : P03 e w ss := by
@@ -558,6 +620,20 @@ theorem hist_P03 (exec : Delivery → Out) (hexec : ∀ d, P03 (hasErr d) (wante
       simp only [runHist] at hx
       have := ih (ns ++ ex) x hx
       exact ⟨fun n hn => this.1 n (List.mem_append_right _ hn), this.2⟩
+
+theorem hist_sub (ex : List Nat) (ops : List Op) :
+    ∀ r ∈ runHist sub ex ops,
+      (hasErr (answers r.1 r.2.1 r.2.2.1) = true → r.2.2.2.sessions = []) ∧
+      (hasErr (answers r.1 r.2.1 r.2.2.1) = false →
+        r.2.2.2.sessions.flatten.Perm (r.2.1.filter (fun n => n ∉ r.1)) ∧ ∀ s ∈ r.2.2.2.sessions, s ≠ []) :=
+  fun r hr => (hist_P03 sub (fun d => P03ord_imp _ _ _ (sub_P03 d)) ex ops r hr).2
+
+theorem hist_evm (cap tg : Nat) (ex : List Nat) (ops : List Op) :
+    ∀ r ∈ runHist (evm cap tg) ex ops,
+      (hasErr (answers r.1 r.2.1 r.2.2.1) = true → r.2.2.2.sessions = []) ∧
+      (hasErr (answers r.1 r.2.1 r.2.2.1) = false →
+        r.2.2.2.sessions.flatten.Perm (r.2.1.filter (fun n => n ∉ r.1)) ∧ ∀ s ∈ r.2.2.2.sessions, s ≠ []) :=
+  fun r hr => (hist_P03 (evm cap tg) (fun d => P03ord_imp _ _ _ (evm_P03 cap tg d)) ex ops r hr).2
 
 /-- **history corollary (BTC).** In every history of deliveries and recorded outcomes, with arbitrary store faults,
     every delivery satisfies P03 against the durable status map at that moment. -/
